@@ -161,7 +161,7 @@ theorem step_refines (s : Sheet) (op : Op) :
       by_cases he : s.merges.isEmpty = true
       · simp [he]
       · simp only [he]; exact ⟨rfl, rfl⟩
-  | getMerges => exact ⟨rfl, rfl⟩
+  | getMerges => simp only [step, Spec.step, getMerges, reported]; split <;> exact ⟨rfl, rfl⟩
 
 /-- clause "after any sequence of cell writes …": by induction over ANY operation list the
 dense grid denotes the map computed by the function-update specification -/
@@ -376,7 +376,11 @@ theorem pd_step (s : Sheet) (op : Op) (h : PairwiseDisjoint s.merges)
       · exact h
       · rw [mergeOverlap_id _ h]
         exact ⟨h.1.filter _, fun m hm => h.2 m (List.mem_filter.mp hm).1⟩
-  | getMerges => exact h
+  | getMerges =>
+    simp only [step, getMerges, reported]
+    split
+    · rw [mergeOverlap_id _ h]; exact h
+    · exact h
 
 /-- clause "merged ranges reported are always pairwise disjoint", as strong as the code allows for
 non-overlapping input: along ANY history (cell writes, styles, merges, unmerges, normalisations, in any
@@ -396,11 +400,20 @@ theorem reported_after_safe (ops : List Op) (s : Sheet) (h : PairwiseDisjoint s.
     (step (run s ops) .getMerges).2 = .merges (run s ops).merges := by
   have hp := merges_disjoint_of_safe ops s h hs
   simp only [step, getMerges, reported, mergeOverlap_id _ hp]
+  split <;> rfl
 
-/-- `GetMergeCells` is a pure getter (since the fix "GetMergeCells merges the overlapping ranges of a copy
-of the list"): the sheet — grid, stored merge list, string table — is exactly what it was; a later read of
-any cell is redirected exactly as before -/
-theorem getMerges_pure (s : Sheet) : (step s .getMerges).1 = s := rfl
+/-- `GetMergeCells` as an observation: when the source normalises a copy of the list (fact
+`getMergeCellsInPlace = false`) the sheet — grid, stored merge list, string table — is exactly what it was,
+so every later read is redirected as before; only the *reported* list is normalised. (On a tree where
+`mergeOverlapCells(ws)` is still called on the worksheet itself the stored list is replaced by the reported one.) -/
+theorem getMerges_observation (s : Sheet) :
+    (step s .getMerges).2 = .merges (reported s) ∧
+    (Facts.C03.getMergeCellsInPlace = false → (step s .getMerges).1 = s) ∧
+    (Facts.C03.getMergeCellsInPlace = true → (step s .getMerges).1 = { s with merges := reported s }) := by
+  simp only [step, getMerges]
+  refine ⟨by split <;> rfl, ?_, ?_⟩
+  · intro h; simp [h]
+  · intro h; simp [h]
 
 def rA (c1 r1 c2 r2 : Nat) : MObj := ⟨⟨c1, r1, c2, r2⟩, ⟨c1, r1, c2, r2⟩⟩
 
@@ -409,8 +422,9 @@ the normalisation): after ANY history of cell writes, styles, merges (overlappin
 order), unmerges and earlier normalisations, what `GetMergeCells` reports has no two ranges sharing a cell. -/
 theorem merges_disjoint (ops : List Op) (s : Sheet) :
     (step (run s ops) .getMerges).2 = .merges (reported (run s ops)) ∧
-    (reported (run s ops)).Pairwise (fun a b => NoCommon a.rect b.rect) :=
-  ⟨rfl, (mergeOverlap_disj _).imp (fun {a b} h => noCommon_of_not_meets _ _ h)⟩
+    (reported (run s ops)).Pairwise (fun a b => NoCommon a.rect b.rect) := by
+  refine ⟨?_, (mergeOverlap_disj _).imp (fun {a b} h => noCommon_of_not_meets _ _ h)⟩
+  simp only [step, getMerges]; split <;> rfl
 
 /-- the same for the list `UnmergeCell` leaves behind -/
 theorem unmerge_reports_disjoint (s : Sheet) (c1 r1 c2 r2 : Nat) :
@@ -509,7 +523,7 @@ theorem sst_stable (s : Sheet) (op : Op) (i : Nat) (e : Tok) (h : s.sst[i]? = so
     split
     · exact h
     · split <;> exact h
-  | getMerges => exact h
+  | getMerges => simp only [step, getMerges]; split <;> exact h
 
 /-- … and the index a string write stores denotes that string -/
 theorem intern_denotes (sst : List Tok) (e : Tok) : (intern sst e).1[(intern sst e).2]? = some e := by
